@@ -622,6 +622,8 @@ pub fn worker(input: &Value) -> Value {
     let mut runs = 0u64;
     let mut events = 0u64;
     let mut prefix_runs = 0u64;
+    let want_trace = input["trace"].as_bool().unwrap_or(false);
+    let mut trace: Vec<Value> = Vec::new();
     for (idx, subject) in plan.subjects.iter().enumerate() {
         // the prefix stream advances identically in all workers
         let prefixes: Vec<Vec<String>> = (0..plan.k)
@@ -653,6 +655,9 @@ pub fn worker(input: &Value) -> Value {
                 if again.raw != o.raw || again.canon != o.canon {
                     harness_errors.push(json!({"what": "same seed, different record", "subject": subject.id(), "first": o.raw, "second": again.raw}));
                 }
+            }
+            if want_trace {
+                trace.push(json!([format!("{idx}/{k}"), format!("{:016x}", digest(&format!("{}#{}", o.raw, o.canon))), scenario_json(boot_seed, subject, ks, &prefixes[k])]));
             }
             outcomes.push((ks, o));
         }
@@ -695,7 +700,7 @@ pub fn worker(input: &Value) -> Value {
     json!({
         "boot_seed": boot_seed, "shard": shard, "runs": runs, "events": events, "prefix_runs": prefix_runs,
         "subjects": subjects_out, "violations": violations, "harness_errors": harness_errors,
-        "k": plan.k, "n_subjects_total": plan.subjects.len(),
+        "k": plan.k, "n_subjects_total": plan.subjects.len(), "trace": trace,
     })
 }
 
@@ -706,7 +711,8 @@ pub fn single(input: &Value) -> Value {
     let subject = Subject::from_json(&input["subject"]);
     let prefix: Vec<String> = input["prefix"].as_array().map(|a| a.iter().map(|x| x.as_str().unwrap().to_string()).collect()).unwrap_or_default();
     let o = run_scenario(&subject, input["key_seed"].as_u64().unwrap(), &prefix);
-    json!({"canon": o.canon, "raw": o.raw, "direct": o.direct.iter().map(|(c, d)| json!([c, d])).collect::<Vec<_>>()})
+    json!({"canon": o.canon, "raw": o.raw, "direct": o.direct.iter().map(|(c, d)| json!([c, d])).collect::<Vec<_>>(),
+           "trace_digest": format!("{:016x}", digest(&format!("{}#{}", o.raw, o.canon)))})
 }
 
 pub fn boot_seed_n(seed: u64, n: usize) -> u64 {
